@@ -3,6 +3,7 @@ C07 - a re-exported object is documented once, where exported, and stays reachab
   R07.1 effect completeness and order in Documentable.reparent
   R07.2 decision guard in ModuleVistor._handleReExport
   R07.3 stale-name consumers re-resolve through find_object
+  R07.4 a name -> object map handed to the colorizer with an expression is keyed by the spelling of that expression
 Does not decide: that every consumer in every analysis order reaches the moved object (schedules x programs).
 """
 from __future__ import annotations
@@ -13,7 +14,7 @@ from typing import Dict, List, Optional, Set, Tuple
 from ..core import AnalysisError, Func, Repo, dotted, norm, parents
 from ..cfg import CFG
 from ..report import Check
-from ..util import call_name, calls_in
+from ..util import call_name, calls_in, values_of
 
 DOC = 'pydoctor.model.Documentable'
 MV = 'pydoctor.astbuilder.ModuleVistor'
@@ -236,3 +237,46 @@ def run(repo: Repo, chk: Check, thorough: bool = False) -> None:
                f'`while {norm(n.test)}` stops before the root object is consulted: a reference by old qualified name written in the docstring of a top-level '
                'module or package is not found', repo.loc(lk.mod, n))
     chk.require('R07.3', 8)
+
+    # ------------------------------------------------------------------ R07.4
+    # `colorize_*pyval(E, refmap={K: full name})` bypasses the linker for the names the map knows (the base class was resolved already and may have moved
+    # since).  The colorizer looks the map up with the names *written in E*, so K has to be the written spelling: a name bound by the same unpacking
+    # target as E (the (text, node) pairs of Class.rawbases) or something computed from E - never a name taken from the resolved object.
+    n74 = 0
+    for f in repo.funcs.values():
+        for c in calls_in(f):
+            if call_name(c) not in ('colorize_pyval', 'colorize_inline_pyval') or not c.args:
+                continue
+            kw = next((k.value for k in c.keywords if k.arg == 'refmap'), None)
+            if kw is None or (isinstance(kw, ast.Constant) and kw.value is None) or f.name in ('colorize_pyval', 'colorize_inline_pyval'):
+                continue
+            maps = values_of(f, kw.id) if isinstance(kw, ast.Name) else [kw]
+            expr = c.args[0]
+            siblings: Set[str] = set()
+            if isinstance(expr, ast.Name):
+                for n in f.walk():
+                    tg = n.target if isinstance(n, (ast.For, ast.comprehension)) else n.targets[0] if isinstance(n, ast.Assign) else None
+                    if tg is None:
+                        continue
+                    for t in ast.walk(tg):
+                        if isinstance(t, (ast.Tuple, ast.List)) and any(isinstance(e, ast.Name) and e.id == expr.id for e in t.elts):
+                            siblings |= {e.id for e in t.elts if isinstance(e, ast.Name)}
+            for m in maps:
+                if isinstance(m, ast.Constant) and m.value is None:
+                    continue
+                n74 += 1
+                if not isinstance(m, ast.Dict):
+                    chk.ob('R07.4', f'{f.qn} :: the bypass map is keyed by the written spelling', False,
+                           f'`{norm(m)[:60]}` is not a literal map: its keys cannot be related to the expression', repo.loc(f.mod, m))
+                    continue
+                bad = [k for k in m.keys if k is None or not {x.id for x in ast.walk(k) if isinstance(x, ast.Name)} <= siblings or
+                       not any(isinstance(x, ast.Name) for x in ast.walk(k))]
+                chk.ob('R07.4', f'{f.qn} :: the bypass map is keyed by the written spelling', not bad,
+                       f'keys {[norm(k) for k in m.keys]} are bound together with the expression `{norm(expr)}`' if not bad else
+                       f'key `{norm(bad[0]) if bad[0] is not None else "**"}` does not come from the expression `{norm(expr)}` it is rendered with: the colorizer '
+                       'looks the map up with the names written in the source, so a base class imported under an alias, or re-exported under another name, '
+                       'misses the map and falls back to the stale import - the base is shown as plain text instead of a link to the moved class',
+                       repo.loc(f.mod, m))
+    if n74 < 1:
+        raise AnalysisError('R07.4: no colorizer call with a refmap found (1 confirmed: templatewriter.pages.format_class_signature)')
+    chk.require('R07.4', 1)
